@@ -293,7 +293,7 @@ func (s *vSim) runC15Scenario(sc vScenario, ly *vC15Layout, dir string, checks *
 		pAB := ly.priv[0]
 		n5 := s.nodes[5]
 		before := len(s.sent)
-		s.exec(&vOp{Op: "inject", From: 0, To: 5, Msg: &vMsg{T: "gossip", LC: 60, XSet: [][2]int{{ly.trunk, ly.trunk + ly.L}}, Refs: []int{ly.trunk + 2, pAB}}})
+		s.exec(&vOp{Op: "inject", From: 0, To: 5, Msg: &vMsg{T: "gossip", LC: 60, XSet: [][2]int{{ly.trunk, ly.trunk + 3}, {pAB, pAB + 1}}, Refs: []int{ly.trunk + 2, pAB}}})
 		var cid *[2]int
 		for _, pk := range s.sent[before:] {
 			if pk.kind == "lq" && pk.src == 5 {
